@@ -50,6 +50,59 @@ func init() {
 			rep.Case(line, nt, map[string]interface{}{"fn": fn, "args": args, "result": res})
 			rep.Count("fn:" + fn)
 		}
+		// exact replay (-case): the recorded call {"fn": ..., "args": [...]} goes first
+		{
+			var rin struct {
+				Fn   string   `json:"fn"`
+				Args []string `json:"args"`
+			}
+			arg := func(i int) string {
+				if i < len(rin.Args) {
+					return rin.Args[i]
+				}
+				return ""
+			}
+			if loadReplayInput(cfg, "paths", &rin) && rin.Fn != "" {
+				rep.BeginReplay()
+				a, b, c := arg(0), arg(1), arg(2)
+				switch rin.Fn {
+				case "clean":
+					add("clean", []string{a}, X(path.Clean(a)))
+				case "join":
+					add("join", []string{a, b}, X(path.Join(a, b)))
+				case "join3":
+					add("join3", []string{a, b, c}, X(path.Join(a, b, c)))
+				case "dir":
+					add("dir", []string{a}, X(path.Dir(a)))
+				case "base":
+					add("base", []string{a}, X(path.Base(a)))
+				case "validpath":
+					add("validpath", []string{a}, B(fs.ValidPath(a)))
+				case "islocal":
+					add("islocal", []string{a}, B(filepath.IsLocal(a)))
+				case "rel":
+					if rel, err := filepath.Rel(a, b); err != nil {
+						add("rel", []string{a, b}, "err")
+					} else {
+						add("rel", []string{a, b}, X(rel))
+					}
+				case "trimspace":
+					add("trimspace", []string{a}, X(strings.TrimSpace(a)))
+				case "split":
+					parts := strings.Split(a, "/")
+					enc := make([]string, len(parts))
+					for i, p := range parts {
+						enc[i] = X(p)
+					}
+					add("split", []string{a}, strings.Join(enc, ","))
+				default:
+					rep.Replayed.Note = "unknown function " + rin.Fn
+				}
+				rep.EndReplay(reqs...)
+			} else {
+				replayMissing(cfg, rep, "paths")
+			}
+		}
 		for i := 0; i < cfg.N; i++ {
 			a := genPath(r, 6)
 			b := genPath(r, 6)
